@@ -1489,6 +1489,21 @@ func (f *fn) checkOptional(checks []*check, uses []useSite, usedExempt map[strin
 							}
 						}
 					}
+				case *ast.ForStmt:
+					// the body of `for j := 0; j < cnt; j++` runs only when
+					// cnt > 0: it is guarded by the flag "cnt!=0"
+					if child == ast.Node(s.Body) && strings.HasSuffix(G, "!=0") {
+						if c, isBin := s.Cond.(*ast.BinaryExpr); isBin && c.Op == token.LSS {
+							if id, isID := ast.Unparen(c.Y).(*ast.Ident); isID && id.Name+"!=0" == G {
+								if init, isAs := s.Init.(*ast.AssignStmt); isAs && len(init.Rhs) == 1 {
+									if tv, has := f.info.Types[init.Rhs[0]]; has && tv.Value != nil && tv.Value.ExactString() == "0" {
+										ok = true
+										f.res.Count("optional_operand_uses_inside_a_loop_over_the_count", 1)
+									}
+								}
+							}
+						}
+					}
 				}
 			}
 			if !ok && strings.HasPrefix(u.what, "pass to ") {
